@@ -47,8 +47,38 @@ def load_props():
 PROPS = load_props()
 
 
-def model_exe(cfg):
-    return vlib.build_modelrun(cfg.get("model", "det"), cfg.get("ocaml_pkgs", "zarith"), cfg.get("ocaml_flags", ""))
+def model_exe(cfg, unit=None):
+    return vlib.build_modelrun(unit or cfg.get("model", "det"), cfg.get("ocaml_pkgs", "zarith"), cfg.get("ocaml_flags", ""))
+
+
+def model_exes(cfg):
+    """a check may combine several extraction units (cfg["model_units"]): each case line is answered by the
+    first unit that knows its tag"""
+    exes, log = [], ""
+    for u in cfg.get("model_units") or [cfg.get("model", "det")]:
+        ucfg = PROPS.get(u.upper(), cfg) if u != cfg.get("model") else cfg
+        exe, out = vlib.build_modelrun(u, ucfg.get("ocaml_pkgs", cfg.get("ocaml_pkgs", "zarith")),
+                                       ucfg.get("ocaml_flags", cfg.get("ocaml_flags", "")))
+        log += out
+        if exe is None:
+            return None, log
+        exes.append(exe)
+    return exes, log
+
+
+def run_models(exes, cases_path, work):
+    outs = []
+    for k, exe in enumerate(exes):
+        mp = os.path.join(work, "model%d.txt" % k)
+        sh("%s < %s > %s" % (exe, cases_path, mp), timeout=6000)
+        outs.append(read_lines(mp))
+    model = []
+    n = max(len(o) for o in outs)
+    for i in range(n):
+        ans = [o[i] for o in outs if i < len(o)]
+        pick = next((a for a in ans if a != "unknown-case"), "unknown-case")
+        model.append(pick)
+    return model
 
 
 def setup():
@@ -73,6 +103,8 @@ def setup():
                 continue
             done.add(unit)
             exe, out = model_exe(cfg)
+            if exe is None and not os.path.exists(os.path.join(COQ, "Extract", "Ex_%s.v" % unit)):
+                continue
             if exe is None:
                 sys.stdout.write(out[-4000:])
                 print("setup: modelrun %s build failed" % unit)
@@ -140,8 +172,17 @@ def run(pid, tier, seed):
             if not chk["ok"]:
                 coq["ok"] = False
                 coq["failed"] = "coqchk: rc=%s unsafe=%s axioms-not-allowed=%s" % (chk["rc"], chk["unsafe"], chk["not_allowed"])
-        m_exe, mout = model_exe(cfg)
+        m_exe, mout = model_exes(cfg)
         h_exe, hout = vlib.build_harness(cfg["harness"])
+        h_dev = None
+        if h_exe is not None and "dev" in cfg.get("profiles", []):
+            # second build WITH overflow checks (harness profile.dev: opt-level 1, overflow-checks on)
+            h_dev, hout2 = vlib.build_harness(cfg["harness"], profile="dev")
+            if h_dev is None:
+                h_exe, hout = None, hout2
+    if gerr and cfg.get("uses_gen"):
+        coq["ok"] = False
+        coq["failed"] = "translator could not regenerate coq/Gen from the current source: " + gerr
     if h_exe is None:
         # /repo no longer builds with the harness: not a property verdict, but the check cannot run
         sys.stdout.write(hout[-3000:])
@@ -170,9 +211,14 @@ def run(pid, tier, seed):
         meta = ["corpus 1"] * len(corpus) + meta
     with open(os.path.join(work, "all_cases.txt"), "w") as f:
         f.write("\n".join(cases) + "\n")
-    rc, out = sh("%s < %s > %s" % (m_exe, os.path.join(work, "all_cases.txt"), os.path.join(work, "model.txt")),
-                 timeout=3000)
-    model = read_lines(os.path.join(work, "model.txt"))
+    model = run_models(m_exe, os.path.join(work, "all_cases.txt"), work)
+    impl_dev = None
+    if h_dev is not None:
+        sh("%s obs < %s > %s" % (h_dev, os.path.join(work, "all_cases.txt"), os.path.join(work, "impl_dev.txt")), timeout=6000)
+        impl_dev = read_lines(os.path.join(work, "impl_dev.txt"))
+        if len(impl_dev) != len(cases):
+            print("ERROR: line count mismatch cases=%d impl(dev)=%d" % (len(cases), len(impl_dev)))
+            return 2
     if len(model) != len(cases) or len(impl) != len(cases):
         print("ERROR: line count mismatch cases=%d impl=%d model=%d" % (len(cases), len(impl), len(model)))
         return 2
@@ -190,6 +236,12 @@ def run(pid, tier, seed):
             distinct.add(c)
         if i != m:
             diffs.append((c, i, m, label))
+    if impl_dev is not None:
+        # the build with overflow checks must behave exactly like the plain release build (and like the model)
+        for c, i, d, mt in zip(cases, impl, impl_dev, meta):
+            if i != d:
+                diffs.append((c, "release: %s | overflow-checked: %s" % (i[:200], d[:200]), "(profiles must agree)",
+                              mt.rsplit(" ", 1)[0] + " [profile difference]"))
     known_hits = collections.OrderedDict()
     for c, i, m, label in diffs:
         kf = known_class(pid, c, i, m)
@@ -260,11 +312,15 @@ def replay(path):
         print(json.dumps(rp, indent=1)[:3000])
         return 0
     with vlib.Lock("build"):
-        m_exe, _ = model_exe(cfg)
+        m_exe, _ = model_exes(cfg)
         h_exe, _ = vlib.build_harness(cfg["harness"])
     case = (rp["case"] + "\n").encode()
     _, i = sh([h_exe, "obs"], stdin=case)
-    _, m = sh([m_exe], stdin=case)
+    work = os.path.join(BUILD, "run", "replay")
+    os.makedirs(work, exist_ok=True)
+    with open(os.path.join(work, "case.txt"), "wb") as f:
+        f.write(case)
+    m = "\n".join(run_models(m_exe, os.path.join(work, "case.txt"), work))
     print("case:           ", rp["case"][:500])
     print("implementation: ", i.strip()[:500])
     print("model (= spec): ", m.strip()[:500])
